@@ -377,6 +377,13 @@ let handle line =
             | "W" -> FWake (next_z c)
             | "B" -> FBegin
             | "E" -> FEnd (next_bool c)
+            | "D" ->
+                let n = next_z c in
+                let ch = next_z c in
+                let t = next_z c in
+                let tag = next_z c in
+                FDirectBegin (((n, ch), t), tag)
+            | "F" -> FDirectEnd (next_bool c)
             | x -> failwith ("bad flush op " ^ x)
           in
           ops (i - 1) (o :: acc)
